@@ -37,7 +37,7 @@ pub fn plan(quick: bool) -> Vec<Part> {
 }
 
 pub fn finalize(_tier: &str, rep: &mut Report) {
-    rep.rule = "every read set of the listed families. Unstranded: ALL 2^n choices of which reads to reverse-complement (n <= 3; catalogue sets with more reads: every single flip and all-flipped): k-mer table (keys, counts, extension sets of non-palindromic keys, merged sets of palindromic keys) and the partition/payload/adjacency of the direct, re-compressed and sharded graphs must be identical to the unflipped run and every key must equal min(k-mer, rc). Stranded: table keys/links must be exactly the forward windows/(K+1)-mers (also on the unpruned thresholded graph, whose dangling extensions must not resolve through the other strand), and the tables of a read and of its reverse complement share exactly the windows the two strings share".into();
+    rep.rule = "every read set of the listed families. Every table is additionally computed under two multi-pass memory budgets (3 and 5 passes) (hook MEM_UNIT) and must not change. Unstranded: ALL 2^n choices of which reads to reverse-complement (n <= 3; catalogue sets with more reads: every single flip and all-flipped): k-mer table (keys, counts, extension sets of non-palindromic keys, merged sets of palindromic keys) and the partition/payload/adjacency of the direct, re-compressed and sharded graphs must be identical to the unflipped run and every key must equal min(k-mer, rc). Stranded: table keys/links must be exactly the forward windows/(K+1)-mers (also on the unpruned thresholded graph, whose dangling extensions must not resolve through the other strand), and the tables of a read and of its reverse complement share exactly the windows the two strings share".into();
     rep.assumptions.push("K >= 8 k-mer types are covered by the structure catalogue only (content not exhaustive)".into());
     for f in ["flip_changes_which_strand_is_observed", "palindromic_kmer", "kmer_seen_on_both_strands", "stranded_table_holds_kmer_and_its_rc"] {
         rep.floor(&format!("R1+RT@K4:{}", f), 1);
@@ -50,10 +50,28 @@ struct Obs {
     graphs: Vec<(String, BTreeMap<BTreeSet<S>, u16>, BTreeSet<S>, GraphV<u16>)>,
 }
 
-fn observe<K: Kmer + Send + Sync>(reads: &[Read], stranded: bool, thr: usize) -> Obs {
+fn observe<K: Kmer + Send + Sync>(reads: &[Read], stranded: bool, thr: usize, multipass_too: bool) -> Obs {
     let (table, _) = count_table::<K>(reads, stranded, thr, false);
     let unpruned = sorted_vec(&table);
     let tv: Vec<(S, u8, u16)> = unpruned.iter().map(|(k, (e, d))| (kstr(k), e.val, *d)).collect();
+    // the same table under multi-pass memory budgets (hook MEM_UNIT = 1 byte): must not depend on the pass plan
+    if multipass_too {
+        use debruijn::verif_hooks::MEM_UNIT;
+        let nk: usize = reads.iter().map(|r| r.seq.len().saturating_sub(K::k() - 1)).sum();
+        let kmer_mem = (nk * std::mem::size_of::<(K, u64)>()).max(1);
+        let old = MEM_UNIT.with(|c| c.replace(1));
+        let mut multipass = vec![];
+        for budget in [(kmer_mem / 2).max(1), (kmer_mem / 4).max(1)] {
+            let t = filter_kmers::<K, _, _, _, _>(&to_seqs(reads), &Box::new(CountFilter::new(thr)), stranded, false, budget).0;
+            let v: Vec<(S, u8, u16)> = sorted_vec(&t).iter().map(|(k, (e, d))| (kstr(k), e.val, *d)).collect();
+            multipass.push(v);
+        }
+        MEM_UNIT.with(|c| c.set(old));
+        if multipass.iter().any(|v| *v != tv) {
+            // encode the disagreement as an impossible table so that every comparison downstream flags it
+            return Obs { table: vec![(vec![9], 0xff, u16::MAX)], graphs: vec![] };
+        }
+    }
     let mut pruned = unpruned.clone();
     remove_censored_exts(stranded, &mut pruned);
     let mut graphs = vec![];
@@ -78,8 +96,12 @@ pub fn run<K: Kmer + Send + Sync>(c: &GCase) -> Outcome {
     let reads = plain_reads(&rs);
     let m = models(&reads, k, c.stranded, c.thr);
     o.flags = model_flags(&m);
-    let base = observe::<K>(&reads, c.stranded, c.thr);
-    o.transitions += 4;
+    let base = observe::<K>(&reads, c.stranded, c.thr, !c.stranded);
+    o.transitions += 7;
+    if base.table.first().map(|x| x.0 == vec![9u8]).unwrap_or(false) {
+        o.fail("table-depends-on-pass-plan", "the k-mer table of this read set differs between the one-pass run and a multi-pass memory budget".to_string());
+        return o;
+    }
     if !c.stranded {
         // every key is the lexicographic minimum of the k-mer and its reverse complement
         for (key, _, _) in &base.table {
@@ -106,8 +128,12 @@ pub fn run<K: Kmer + Send + Sync>(c: &GCase) -> Outcome {
             if fl != rs {
                 o.flags |= flag::SPECIFIC;
             }
-            let other = observe::<K>(&plain_reads(&fl), false, c.thr);
-            o.transitions += 4;
+            let other = observe::<K>(&plain_reads(&fl), false, c.thr, true);
+            o.transitions += 7;
+            if other.table.first().map(|x| x.0 == vec![9u8]).unwrap_or(false) {
+                o.fail("table-depends-on-pass-plan", format!("flip mask {:b}: the k-mer table of the flipped read set differs between the one-pass run and a multi-pass memory budget", mask));
+                continue;
+            }
             if other.table.len() != base.table.len() {
                 o.fail("table-changes-under-flip", format!("flip mask {:b}: {} keys vs {}", mask, other.table.len(), base.table.len()));
                 continue;
@@ -176,8 +202,8 @@ pub fn run<K: Kmer + Send + Sync>(c: &GCase) -> Outcome {
         }
         // a read and its reverse complement: tables share exactly the shared windows
         for r in &rs {
-            let a = observe::<K>(&plain_reads(&[r.clone()]), true, 1);
-            let b = observe::<K>(&plain_reads(&[rc(r)]), true, 1);
+            let a = observe::<K>(&plain_reads(&[r.clone()]), true, 1, false);
+            let b = observe::<K>(&plain_reads(&[rc(r)]), true, 1, false);
             o.transitions += 8;
             let ka: BTreeSet<S> = a.table.iter().map(|x| x.0.clone()).collect();
             let kb: BTreeSet<S> = b.table.iter().map(|x| x.0.clone()).collect();
